@@ -6,8 +6,9 @@
 // library's atomic operations (DISPATCH_VERIF hook).
 // usage: c16_cancel <seed> <rounds> <perturb_permille> [first_round_code]
 // output: one "R ..." line per round (white-box observations made inside the cancel handler / after cancel_and_wait and
-// the final state), then the recorder dump: E lines, obj = 4*round + field (0 dq_atomic_flags, 1 ds_handler[3],
-// 2 ds_pending_data, 3 du_state); user events carry obj = 4*round.
+// the final state), then the recorder dump: E lines, obj = 8*round + field (0 dq_atomic_flags, 1 ds_handler[3],
+// 2 ds_pending_data, 3 du_state, 4 dq_state); user events carry obj = 8*round.  Last line before the dump: MGR <lock value of
+// the manager thread>.
 #include "internal.h"
 #include <signal.h>
 #include <errno.h>
@@ -85,7 +86,7 @@ static void observe(round_t *r) {
 
 static void ev2_handler(void *ctx) {
 	round_t *r = (round_t *)ctx; char b[8];
-	if (read(r->nfd_r, b, sizeof b) > 0) { dv_user(DVU_MARK, 4 * r->id, M_REUSE_FIRED, 0); sem_post(&r->reuse_sem); }
+	if (read(r->nfd_r, b, sizeof b) > 0) { dv_user(DVU_MARK, 8 * r->id, M_REUSE_FIRED, 0); sem_post(&r->reuse_sem); }
 }
 static void ch2_handler(void *ctx) { round_t *r = (round_t *)ctx; close(r->nfd_r); close(r->nfd_w); sem_post(&r->reuse_sem); }
 
@@ -105,21 +106,21 @@ static void close_and_reuse(round_t *r) {
 
 static void do_cancel(round_t *r, int cx) {
 	__sync_fetch_and_add(&r->cancels_started, 1);
-	dv_user(DVU_CALL, 4 * r->id, A_CANCEL, (unsigned long long)cx);
+	dv_user(DVU_CALL, 8 * r->id, A_CANCEL, (unsigned long long)cx);
 	dispatch_source_cancel(r->ds);
-	dv_user(DVU_RET, 4 * r->id, A_CANCEL, (unsigned long long)cx);
+	dv_user(DVU_RET, 8 * r->id, A_CANCEL, (unsigned long long)cx);
 }
 static void do_caw(round_t *r) {
 	__sync_fetch_and_add(&r->cancels_started, 1);
-	dv_user(DVU_CALL, 4 * r->id, A_CAW, 0);
+	dv_user(DVU_CALL, 8 * r->id, A_CAW, 0);
 	dispatch_source_cancel_and_wait(r->ds);
-	dv_user(DVU_RET, 4 * r->id, A_CAW, 0);
+	dv_user(DVU_RET, 8 * r->id, A_CAW, 0);
 }
 
 static void ev_handler(void *ctx) {
 	round_t *r = (round_t *)ctx;
 	int ontq = dispatch_get_specific(&qkey) == (void *)r;
-	dv_user(DVU_CALLOUT_BEGIN, 4 * r->id, 0, (unsigned long long)ontq);
+	dv_user(DVU_CALLOUT_BEGIN, 8 * r->id, 0, (unsigned long long)ontq);
 	int n = __sync_add_and_fetch(&r->fired, 1);
 	char b[64];
 	if (r->type == T_READ) { (void)!read(r->fd_r, b, 1 + (size_t)(rr(r) % 8)); }
@@ -131,22 +132,25 @@ static void ev_handler(void *ctx) {
 	}
 	uint64_t x = rr(r);
 	if (x % 4 == 0) usleep((useconds_t)((x >> 8) % 150)); else if (x % 4 == 1) sched_yield();
-	dv_user(DVU_CALLOUT_END, 4 * r->id, 0, 0);
+	dv_user(DVU_CALLOUT_END, 8 * r->id, 0, 0);
 }
 static void ch_handler(void *ctx) {
 	round_t *r = (round_t *)ctx;
 	int ontq = dispatch_get_specific(&qkey) == (void *)r;
-	dv_user(DVU_CALLOUT_BEGIN, 4 * r->id, 1, (unsigned long long)ontq);
+	dv_user(DVU_CALLOUT_BEGIN, 8 * r->id, 1, (unsigned long long)ontq);
 	__sync_add_and_fetch(&r->ch_runs, 1);
 	r->ob_ontq = ontq;
 	observe(r);
 	close_and_reuse(r);
-	dv_user(DVU_CALLOUT_END, 4 * r->id, 1, 0);
+	dv_user(DVU_CALLOUT_END, 8 * r->id, 1, 0);
 	sem_post(&r->done);
 }
 static void tq_item(void *ctx) { do_cancel((round_t *)ctx, CX_TQITEM); }
 // registration handler (runs on the target queue once the source is installed): lets events accumulate, then cancels
-static void reg_handler(void *ctx) { round_t *r = (round_t *)ctx; usleep((useconds_t)(200 + rr(r) % 800)); do_cancel(r, CX_TQITEM); }
+static void reg_handler(void *ctx) { round_t *r = (round_t *)ctx;
+	dv_user(DVU_CALLOUT_BEGIN, 8 * r->id, 2, (unsigned long long)(dispatch_get_specific(&qkey) == (void *)r));
+	usleep((useconds_t)(200 + rr(r) % 800)); do_cancel(r, CX_TQITEM);
+	dv_user(DVU_CALLOUT_END, 8 * r->id, 2, 0); }
 static void noop(void *ctx) { (void)ctx; }
 
 static void *feeder(void *a) {
@@ -196,10 +200,11 @@ static void run_round(round_t *r) {
 	if (!r->ds) { fprintf(stderr, "source create failed type %d\n", r->type); exit(3); }
 	dispatch_source_t ds = r->ds;
 	dv_untrack_all();
-	dv_track(&ds->dq_atomic_flags, sizeof(ds->dq_atomic_flags), 4 * id);
-	dv_track((void *)&ds->ds_refs->ds_handler[0], sizeof(ds->ds_refs->ds_handler), 4 * id + 1);
-	dv_track(&ds->ds_refs->ds_pending_data, sizeof(uint64_t), 4 * id + 2);
-	dv_track(&ds->ds_refs->du_state, sizeof(uintptr_t), 4 * id + 3);
+	dv_track(&ds->dq_atomic_flags, sizeof(ds->dq_atomic_flags), 8 * id);
+	dv_track((void *)&ds->ds_refs->ds_handler[0], sizeof(ds->ds_refs->ds_handler), 8 * id + 1);
+	dv_track(&ds->ds_refs->ds_pending_data, sizeof(uint64_t), 8 * id + 2);
+	dv_track(&ds->ds_refs->du_state, sizeof(uintptr_t), 8 * id + 3);
+	dv_track(&ds->dq_state, sizeof(uint64_t), 8 * id + 4);
 	dispatch_set_context(ds, r);
 	dispatch_source_set_event_handler_f(ds, ev_handler);
 	if (r->has_ch) dispatch_source_set_cancel_handler_f(ds, ch_handler);
@@ -210,7 +215,7 @@ static void run_round(round_t *r) {
 	if (r->scen == S_CAW_PRE) {
 		do_caw(r);   // cancel_and_wait on an inactive source activates it itself
 	} else {
-		dv_user(DVU_CALL, 4 * id, A_ACTIVATE, 0); dispatch_activate(ds); dv_user(DVU_RET, 4 * id, A_ACTIVATE, 0);
+		dv_user(DVU_CALL, 8 * id, A_ACTIVATE, 0); dispatch_activate(ds); dv_user(DVU_RET, 8 * id, A_ACTIVATE, 0);
 	}
 	r->have_feeder = 1; if (r->type == T_DATA) dispatch_retain(ds);
 	pthread_create(&r->feeder, NULL, feeder, r);
@@ -250,7 +255,7 @@ static void run_round(round_t *r) {
 		dispatch_suspend(ds);
 		do_cancel(r, CX_THREAD);
 		usleep((useconds_t)(rr(r) % 1500));
-		dv_user(DVU_CALL, 4 * id, A_RESUME, 0); dispatch_resume(ds); dv_user(DVU_RET, 4 * id, A_RESUME, 0);
+		dv_user(DVU_CALL, 8 * id, A_RESUME, 0); dispatch_resume(ds); dv_user(DVU_RET, 8 * id, A_RESUME, 0);
 		break;
 	default: break;
 	}
@@ -283,14 +288,14 @@ static void run_round(round_t *r) {
 		usleep(1000);
 	}
 	if (!((ff & DSF_DELETED) && !h0 && !h1 && !h2)) r->timeouts |= 2;
-	dv_user(DVU_MARK, 4 * id, M_END, 0);
+	dv_user(DVU_MARK, 8 * id, M_END, 0);
 	if (r->fd_r >= 0) close(r->fd_r); if (r->fd_w >= 0) close(r->fd_w);
 	printf("R %d type=%d scen=%d has_ch=%d fired=%d ch_runs=%d ob_flags=%u ob_flags_ok=%d ob_du0=%d ob_mon=%d ob_ontq=%d reuse=%d "
 			"timeouts=%d final_flags=%u h0=%d h1=%d h2=%d du_state=%" PRIuPTR " pending=%" PRIu64 " cancels=%d\n",
 			id, r->type, r->scen, r->has_ch, r->fired, r->ch_runs, r->ob_flags, r->ob_flags_ok, r->ob_du_state0, r->ob_monitored,
 			r->ob_ontq, r->reuse_ok, r->timeouts, ff, h0 != 0, h1 != 0, h2 != 0, dus, pend, r->cancels_started);
 	fflush(stdout);
-	dv_user(DVU_CALL, 4 * id, A_RELEASE, 0);
+	dv_user(DVU_CALL, 8 * id, A_RELEASE, 0);
 	dispatch_release(ds);
 	dispatch_release(r->tq);
 }
@@ -319,6 +324,7 @@ int main(int argc, char **argv) {
 		run_round(r);
 	}
 	dv_untrack_all();
+	printf("MGR %llu\n", (unsigned long long)(os_atomic_load2o(&_dispatch_mgr_q, dq_state, relaxed) & DLOCK_OWNER_MASK));
 	dv_dump(stdout);
 	return 0;
 }
